@@ -33,7 +33,7 @@ def chain_of(node):
         elif c is A.Cell:
             ch.append("Cell:h" if getattr(p, "is_header", False) else "Cell:d")
         elif c in (A.ArticleLink, A.NamespaceLink):
-            ch.append("Link:" + p.target)
+            ch.append("Link:%s@%s" % (p.target, "ns" if c is A.NamespaceLink else "0"))
         elif c is N.NamedURL:
             ch.append("Link:" + p.caption)
         elif c is N.Node and par is not None and par.__class__ is A.Section and par.children[0] is p:
